@@ -9,16 +9,16 @@
 (*                        -> (if accepted) Marshal -> datagram decoder      *)
 EXTENDS Codec, Domain, Faults, Variants, Json
 
-CONSTANTS Mode, KindsUnderTest, FaultDepth, MaxFrames, AllPTs, MaxCompound
-VARIABLES pc
-mvars == << vars, pc >>
+CONSTANTS Mode, KindsUnderTest, FaultDepth, MaxFrames, AllPTs, MaxCompound, MaxHist
+VARIABLES pc, hist     \* hist: the calls made so far (hist mode)
+mvars == << vars, pc, hist >>
 
 Vals == CASE Mode \in {"wire", "foreign"} -> UNION { StarDom(k) : k \in KindsUnderTest }
           [] Mode = "limits" -> LimitDom
           [] Mode = "variants" -> VarDom \cup InflateDom
           [] OTHER -> UNION { Tiny(k) : k \in KindsUnderTest }
 
-McInit == Init /\ pc = "build"
+McInit == Init /\ pc = "build" /\ hist = << >>
 
 Emit(rec) == PrintT(<< "VERIF_BEH", ToJson(rec) >>)
 
@@ -104,10 +104,31 @@ CompoundNext ==
      /\ Emit([script |-> "cp", pkts |-> pk[1].pkts])
   \/ /\ pc = "unmarshal" /\ prov[1].k # "NONE" /\ Unmarshal("CP", 1, 2, RefDecode("CP", buf[1])) /\ pc' = "done"
 
-McNext == CASE Mode = "compound" -> CompoundNext [] Mode = "wire" -> WireNext [] Mode = "faults" -> FaultNext [] Mode = "limits" -> LimitsNext
+\* hist: every call history up to MaxHist calls on one packet and what is decoded from it (C18)
+HistOps == {"marshal1", "size1", "dest1", "string1", "unmarshal12", "datagram13", "marshal2", "dest2", "marshal3"}
+HistCall(op) ==
+  CASE op = "marshal1" -> Marshal(1, RefMarshal(pk[1]))
+    [] op = "size1" -> SizeOf(1, SizeAny(pk[1]))
+    [] op = "dest1" -> DestOf(1, DestAny(pk[1]))
+    [] op = "string1" -> StringOf(1, [panic |-> FALSE, out |-> << 0 >>])
+    [] op = "unmarshal12" -> Unmarshal(pk[1].k, 1, 2, RefDecode(pk[1].k, buf[1]))
+    [] op = "datagram13" -> Datagram(1, 3, RefDatagram(buf[1]))
+    [] op = "marshal2" -> pk[2].k # "NONE" /\ Marshal(2, RefMarshal(pk[2]))
+    [] op = "dest2" -> pk[2].k # "NONE" /\ DestOf(2, DestAny(pk[2]))
+    [] op = "marshal3" -> pk[3].k # "NONE" /\ Marshal(3, RefMarshal(pk[3]))
+HistNext ==
+  \/ /\ pc = "build" /\ \E v \in Vals : Build(1, v)
+     /\ pc' = "calls" /\ hist' = << >>
+  \/ /\ pc = "calls" /\ Len(hist) < MaxHist
+     /\ \E op \in HistOps : HistCall(op) /\ hist' = Append(hist, op)
+     /\ pc' = "calls"
+     /\ Emit([script |-> "prog", v |-> pk[1], ops |-> hist'])
+
+McNext == CASE Mode = "hist" -> HistNext [] Mode = "compound" -> CompoundNext [] Mode = "wire" -> WireNext [] Mode = "faults" -> FaultNext [] Mode = "limits" -> LimitsNext
             [] Mode = "variants" -> VariantsNext [] Mode = "foreign" -> ForeignNext
             [] Mode = "dispatch" -> DispatchNext [] Mode = "dgram" -> DgramNext
-McSpec == McInit /\ [][McNext]_mvars
+McStep == McNext /\ (Mode # "hist" => UNCHANGED hist)
+McSpec == McInit /\ [][McStep]_mvars
 
 \* ---- invariants beyond Codec's ------------------------------------------
 \* re-marshalling what was decoded reproduces the bytes (C02)
@@ -131,6 +152,12 @@ AutomatonIsGrammar == (Mode = "compound" /\ pk[1].k = "CP") => (ValidateRun(pk[1
 CompoundMarshal == (Mode = "compound" /\ pc \in {"unmarshal", "done"}) => ((prov[1].k # "NONE") = Valid(pk[1].pkts))
 CompoundBack == (Mode = "compound" /\ pc = "done") => pk[2] = pk[1]
 CnameDefined == (Mode = "compound" /\ pk[1].k = "CP" /\ Valid(pk[1].pkts)) => Len(CNAMEOf(pk[1].pkts)) \in {1, 3, 4, 5}
+
+\* ---- histories (C18): the packet under test is never modified by any call, a buffer is only
+\* written by Marshal, and repeating a call gives the same result (the guards of Codec.tla
+\* would disable a differing repeat; here the reference results are functions of the value)
+PacketUntouched == [][Mode = "hist" /\ pc = "calls" => pk'[1] = pk[1]]_mvars
+BufferOnlyByMarshal == [][Mode = "hist" /\ pc = "calls" /\ buf'[1] # buf[1] => hist'[Len(hist')] = "marshal1"]_mvars
 
 \* ---- limits (C08): every boundary value is decided, and never both ways ----
 LimitsDecided == (Mode = "limits" /\ pk[1].k # "NONE") => (WF(D0, pk[1]) # Over(pk[1]))
